@@ -46,6 +46,9 @@ func init() {
 	mutant(&Mutant{Name: "c02-switch-scope-not-renamed", Property: "C02", File: "js/js.go",
 		Old: "\t\tm.renamer.renameScope(stmt.Scope)\n\t\tfor _, clause := range stmt.List {", New: "\t\tfor _, clause := range stmt.List {",
 		Rule: "R02.1", Construct: "loop stmt.List"})
+	mutant(&Mutant{Name: "c02-for-body-optimized-after-rename", Property: "C02", File: "js/js.go",
+		Old: "\tcase *js.ForStmt:\n\t\tstmt.Body.List = optimizeStmtList(stmt.Body.List, iterationBlock)\n\t\tm.renamer.renameScope(stmt.Body.Scope)\n", New: "\tcase *js.ForStmt:\n\t\tm.renamer.renameScope(stmt.Body.Scope)\n\t\tstmt.Body.List = optimizeStmtList(stmt.Body.List, iterationBlock)\n",
+		Rule: "R02.7", Construct: "case *js.ForStmt"})
 	mutant(&Mutant{Name: "c02-arrow-ignores-with", Property: "C02", File: "js/js.go",
 		Old: "func (m *jsMinifier) minifyArrowFunc(decl *js.ArrowFunc) {\n\tparentRename := m.renamer.rename\n\tm.renamer.rename = !decl.Body.Scope.HasWith && !m.o.KeepVarNames",
 		New: "func (m *jsMinifier) minifyArrowFunc(decl *js.ArrowFunc) {\n\tparentRename := m.renamer.rename\n\tm.renamer.rename = !m.o.KeepVarNames",
@@ -81,6 +84,75 @@ func runC02(c *Ctx) {
 	c.r024(pk)
 	c.r025(pk)
 	c.r026(pk)
+	c.r027(pk)
+}
+
+// R02.7: statement lists are optimized before their scope is renamed.
+func (c *Ctx) r027(pk *packages.Package) {
+	const rule = "R02.7"
+	c.R.Rule(rule, "optimizeStmtList can dissolve blocks and move their let/const/class bindings into the enclosing scope (Scope.Unscope); such bindings are only renamed and collision-checked if that happens before the enclosing scope is renamed. Rule: within a function no call optimizeStmtList(L) is reachable from a call renameScope(S.Scope) when L belongs to S — L is S.List, S.<field>.List, an element's list S.List[i].List, or the List of a range variable over S.List")
+	info := pk.TypesInfo
+	const optFn = load.Mod + "/js.optimizeStmtList"
+	pairs := 0
+	for _, fd := range load.FuncDecls(pk) {
+		g := c.graph(pk, fd)
+		fname := load.FuncName(fd)
+		// range variables: name -> ranged expression path
+		rangeOf := map[string]string{}
+		ast.Inspect(fd.Body, func(x ast.Node) bool {
+			if rs, ok := x.(*ast.RangeStmt); ok && rs.Value != nil {
+				rangeOf[str(rs.Value)] = selPath(rs.X)
+			}
+			return true
+		})
+		type site struct {
+			n    *flow.Node
+			call *ast.CallExpr
+		}
+		callsIn := func(n *flow.Node, name string) []*ast.CallExpr {
+			var a ast.Node = n.Ast()
+			if n.Kind == flow.KRange {
+				a = n.Expr
+			}
+			if a == nil || n.Kind == flow.KSelect {
+				return nil
+			}
+			return findCalls(info, a, false, name)
+		}
+		var renames, opts []site
+		for _, n := range g.Nodes {
+			for _, call := range callsIn(n, jsRenameScope) {
+				renames = append(renames, site{n, call})
+			}
+			for _, call := range callsIn(n, optFn) {
+				opts = append(opts, site{n, call})
+			}
+		}
+		for _, r := range renames {
+			owner := strings.TrimSuffix(selPath(r.call.Args[0]), ".Scope")
+			for _, o := range opts {
+				arg := selPath(o.call.Args[0])
+				root := arg
+				if i := strings.IndexAny(arg, ".["); i >= 0 {
+					root = arg[:i]
+				}
+				belongs := strings.HasPrefix(arg, owner+".") || strings.HasPrefix(arg, owner+"[")
+				if ranged, ok := rangeOf[root]; ok && (ranged == owner+".List" || strings.HasPrefix(ranged, owner+".")) {
+					belongs = true
+				}
+				if !belongs || c.caseLabel(r.call) != c.caseLabel(o.call) {
+					continue // `stmt` names a different variable in each type-switch clause
+				}
+				pairs++
+				c.R.Func("js." + fname)
+				construct := fmt.Sprintf("js.%s/%s/optimizeStmtList(%s) before renameScope(%s.Scope)", fname, c.caseLabel(r.call), arg, owner)
+				p := g.Path(flow.Search{From: []*flow.Node{r.n}, Goal: func(y *flow.Node) bool { return y == o.n }})
+				c.R.Check(p == nil, rule, construct, c.pos(o.call), "the list is optimized before its scope is renamed",
+					"the statement list is optimized after its scope was renamed: bindings that optimizeStmtList moves out of dissolved blocks keep their source names and are not checked against the short names already handed out (capture): "+pathStr(c, g, p))
+			}
+		}
+	}
+	c.R.Floor(rule, "optimize/rename pairs", pairs, 8)
 }
 
 func hasScopeField(t types.Type) bool {
